@@ -389,3 +389,25 @@ Proof.
   - apply Rlt_le, exp_increasing. exact H.
   - rewrite H. apply Rle_refl.
 Qed.
+
+(* boolean form: the float comparisons 0 <= p and p <= 1 themselves answer true *)
+Lemma factor_in_range_complete f : fin f -> 0 <= val f <= 1 -> factor_in_range f = true.
+Proof.
+  unfold factor_in_range, fin, val. intros F [H0 H1].
+  rewrite !leb_equiv, Prim2B_zero, Prim2B_one.
+  rewrite Bleb_correct by (try exact F; reflexivity).
+  rewrite Bleb_correct by (try exact F; reflexivity).
+  rewrite Bone_correct. cbn [B2R].
+  rewrite Rle_bool_true by exact H0. rewrite Rle_bool_true by exact H1. reflexivity.
+Qed.
+
+Lemma accept_prob_unit_bool k es :
+  es <> [] -> (Z.of_nat (length es) <= 2 ^ 53)%Z ->
+  forallb factor_in_range es = true -> factor_in_range (accept_prob k es) = true.
+Proof.
+  intros Hne Hlen Hall.
+  destruct (accept_prob_unit k es Hne Hlen) as [F V].
+  - rewrite forallb_forall in Hall. apply Forall_forall. intros e He.
+    apply factor_in_range_spec. apply Hall. exact He.
+  - apply factor_in_range_complete; assumption.
+Qed.
